@@ -318,20 +318,7 @@ func checkC04(cx *Ctx, r *Report) {
 			r.Check(strings.HasSuffix(fx.T(fx.path(c.Common().Args[4])), "<provider.Response>.RelayState"), "R-VFG", "redirect:signed-relaystate", w.InstrPos(c), "the RelayState that is signed is Response.RelayState, the one sent", "the RelayState that is signed is not the Response.RelayState that is sent")
 		}
 	}
-	// BuildRedirectQuery escapes each value exactly once
-	if bq := w.Func("provider.BuildRedirectQuery"); bq != nil {
-		n := 0
-		bad := ""
-		for _, c := range callsIn(bq) {
-			if calleeName(c) == "net/url.QueryEscape" {
-				n++
-				if _, isP := c.Common().Args[0].(*ssa.Parameter); !isP {
-					bad = "QueryEscape is applied to something other than a parameter (double encoding)"
-				}
-			}
-		}
-		r.Check(n == 4 && bad == "", "R-VFG", "BuildRedirectQuery:escape-once", w.FnPos(bq), "each of the four values is URL-encoded exactly once", fmt.Sprintf("%d QueryEscape calls; %s", n, bad))
-	}
+	cx.checkBuildRedirectQuery(r)
 
 	// the octets signed cannot be overwritten before they are sent
 	cx.checkPoolEscape(r)
@@ -347,6 +334,24 @@ func checkC04(cx *Ctx, r *Report) {
 	} else {
 		r.Fail("R-VFG", "ParseTlsKeyPair:checked-pair", "", "anchor not found")
 	}
+
+	// the signer used for enveloped signatures is built for this request from the key just read (not cached)
+	for _, e := range []struct{ key, short string }{{kCallback, "callback"}, {kAttr, "attr"}, {kMeta, "metadata"}} {
+		vf := cx.vflow(e.key)
+		if vf == nil {
+			continue
+		}
+		ls, sites := vf.CallArgSources(matchFnKey(w, "signature.Create"), 0)
+		if len(sites) == 0 {
+			continue
+		}
+		r.checkSources("R-VFG", e.short+":signature.Create:signer", w.InstrPos(sites[0]), ls, []string{"ext:xmlsig.NewSignerWithOptions#0"}, []string{"ext:xmlsig.NewSignerWithOptions#0"}, true)
+	}
+	// the types that get signed keep the encode table the canonicaliser was checked against
+	cx.checkTags(r, "R-TAG", "samlp.ResponseType", "saml.AssertionType", "saml.NameIDType", "saml.SubjectType", "saml.SubjectConfirmationType", "saml.SubjectConfirmationDataType",
+		"saml.ConditionsType", "saml.AudienceRestrictionType", "saml.AttributeStatementType", "saml.AttributeType", "saml.AuthnStatementType", "saml.AuthnContextType",
+		"md.EntityDescriptorType", "md.IDPSSODescriptorType", "md.AttributeAuthorityDescriptorType", "md.EndpointType", "md.KeyDescriptorType", "md.OrganizationType",
+		"md.LocalizedNameType", "md.LocalizedURIType", "md.ContactType", "xml_dsig.KeyInfoType", "xml_dsig.X509DataType")
 
 	// --- canonicaliser -------------------------------------------------------------------------------------
 	cx.checkCanonicalizer(r)
@@ -485,4 +490,54 @@ func ssaFuncsOf(pkg *ssa.Package) map[*ssa.Function]bool {
 		}
 	}
 	return out
+}
+
+// checkBuildRedirectQuery: each of the four values is encoded exactly once, with url.QueryEscape (the
+// application/x-www-form-urlencoded encoding a receiver undoes with one decoding step), and nothing else.
+func (cx *Ctx) checkBuildRedirectQuery(r *Report) {
+	w := cx.W
+	bq := w.Func("provider.BuildRedirectQuery")
+	if bq == nil {
+		r.Fail("R-VFG", "BuildRedirectQuery:escape-once", "", "anchor not found")
+		return
+	}
+	lvf := cx.newVFlow("BuildRedirectQuery", bq)
+	ls := LabelSet{}
+	for _, ret := range returnsOf(bq) {
+		ls.addAll(lvf.Labels(ret.Results[0]), 0)
+	}
+	ls = lvf.Deep(ls)
+	bad := ""
+	for _, l := range ls.keys() {
+		if strings.HasPrefix(l, "via:") && l != "via:concat" && l != "via:url.QueryEscape" && l != "via:fmt.Sprintf" {
+			bad = "a value passes through " + strings.TrimPrefix(l, "via:") + " instead of url.QueryEscape: the receiver's query decoding does not give back the value that was put in (and that was signed)"
+		}
+	}
+	n := 0
+	seenParam := map[int]bool{}
+	for _, c := range callsIn(bq) {
+		if calleeName(c) == "net/url.QueryEscape" {
+			n++
+			p, isP := c.Common().Args[0].(*ssa.Parameter)
+			if !isP {
+				bad = "QueryEscape is applied to something other than a parameter (double encoding)"
+				continue
+			}
+			for i, q := range bq.Params {
+				if q == p {
+					seenParam[i] = true
+				}
+			}
+		}
+	}
+	// every parameter reaches the result only through the escaping call
+	for i := range bq.Params {
+		if _, raw := ls[fmt.Sprintf("param:provider.BuildRedirectQuery/#%d", i)]; raw && ls[fmt.Sprintf("param:provider.BuildRedirectQuery/#%d", i)]&flTransformed == 0 {
+			bad = fmt.Sprintf("parameter %d reaches the query unencoded", i)
+		}
+		if !seenParam[i] {
+			bad = fmt.Sprintf("parameter %d is not encoded with url.QueryEscape", i)
+		}
+	}
+	r.Check(n == len(bq.Params) && bad == "", "R-VFG", "BuildRedirectQuery:escape-once", w.FnPos(bq), "each of the four values is URL-encoded exactly once with url.QueryEscape", fmt.Sprintf("%d QueryEscape calls for %d values; %s", n, len(bq.Params), bad))
 }
